@@ -18,4 +18,12 @@ MUTANTS = [
     M('C15', 'variable decode reads the flip words', BRK, "range(first_address + w, last_address, 2 * w)", "range(first_address, last_address, 2 * w)", 'C15.DECODE'),
     M('C15', 'variable decode data offset w/o #w', BRK, "        data_bits = (word >> w.bit_length()) & ((1 << bits_per_word) - 1)", "        data_bits = (word >> (w.bit_length() - 1)) & ((1 << bits_per_word) - 1)", 'C15.DECODE'),
     M('C15', 'EQ continue and continue_all share the reset', 'flipjump/interpreter/debugging/breakpoints.py', "        elif command == 'continue':\n            self.next_break = None\n        elif command == 'continue_all':\n            self.next_break = None\n            raise BreakpointHandlerUnnecessary()", "        elif command in ('continue', 'continue_all'):\n            self.next_break = None\n            if command == 'continue_all':\n                raise BreakpointHandlerUnnecessary()", None),
+    M('C15', 'variable length / index converted outside any handler (F17 reverted)', 'flipjump/interpreter/debugging/breakpoints.py', "            try:\n                index = int(index_string[:-1]) if index_string else 0\n                variable_prefix = (variable_type, int(variable_length), index)\n            except ValueError:", "            index = int(index_string[:-1]) if index_string else 0\n            variable_prefix = (variable_type, int(variable_length), index)\n            try:\n                pass\n            except ValueError:", 'C15.CMD-ESCAPE'),
+    M('C15', 'vector value printed in decimal (F17 reverted)', 'flipjump/interpreter/debugging/breakpoints.py', "f' = {int_to_str(value)}  (or {hex(value)}).'", "f' = {value}  (or {hex(value)}).'", 'C15.CMD-ESCAPE'),
+    M('C15', 'rejected skip count printed in decimal (F17 reverted)', 'flipjump/interpreter/debugging/breakpoints.py', "got {int_to_str(count)}.", "got {count}.", 'C15.CMD-ESCAPE'),
+    M('C15', 'skip count converted outside its handler', 'flipjump/interpreter/debugging/breakpoints.py', "                try:\n                    count = int(argument, 0)  # accepts decimal and 0x-hex\n                except ValueError:\n                    show_message(f\"skip needs a number (decimal or 0x-hex), got {argument!r}.\", 'Debugger')\n                    continue\n", "                count = int(argument, 0)  # accepts decimal and 0x-hex\n", 'C15.CMD-ESCAPE'),
+    M('C15', 'label lookup without the membership test', 'flipjump/interpreter/debugging/breakpoints.py', "        if target in self.label_to_address:\n            show_memory_address(variable_prefix, query, self.label_to_address[target], mem, None)\n            return\n", "        if not target.isdigit():\n            show_memory_address(variable_prefix, query, self.label_to_address[target], mem, None)\n            return\n", 'C15.CMD-ESCAPE'),
+    M('C15', 'EQ rejected skip count printed in hex', 'flipjump/interpreter/debugging/breakpoints.py', "got {int_to_str(count)}.", "got {hex(count)}.", None),
+    M('C15', 'EQ rejected skip count echoes the typed text', 'flipjump/interpreter/debugging/breakpoints.py', "got {int_to_str(count)}.", "got {argument!r}.", None),
+    M('C15', 'EQ vector value printed only in hex', 'flipjump/interpreter/debugging/breakpoints.py', "f' = {int_to_str(value)}  (or {hex(value)}).'", "f' = {hex(value)}.'", None),
 ]
